@@ -1748,6 +1748,7 @@ func init() {
 	dir := os.Getenv("VERIF_TMP")
 	if dir == "" {
 		dir, _ = os.MkdirTemp("", "verif-harness-")
+		harnessTmpOwned = true
 	}
 	os.MkdirAll(dir, 0o755)
 	os.Setenv("TMPDIR", dir)
@@ -1755,3 +1756,4 @@ func init() {
 }
 
 var harnessTmp string
+var harnessTmpOwned bool // created by this process: removed when it ends
